@@ -32,7 +32,8 @@ RULE = ("channel objects {TdlChannel SISO, TdlMimoChannel, SuChannel (with / "
         "Frequency-domain cases include channel memory of one, two and several "
         "fft sizes (taps fold onto the grid); single-link path loss includes "
         "exactly 0. "
-        "In the multiuser slots some (or all) transmitters are silent (all-zero rows); every link's reported response must be the one of THIS transmission (sample count checked before use). ")
+        "In the multiuser slots some (or all) transmitters are silent (all-zero rows); every link's reported response must be the one of THIS transmission (sample count checked before use). "
+        "Slices with negative bounds; transmissions whose response nobody queries between the observed ones. ")
 ASSUMPTIONS = ["for channel memory >= fft size the DFT of the reported response is "
                "the defining sum over ALL taps, sum_d h[d] exp(-2 pi i k d / fft) "
                "(taps fold onto the fft grid; the same reading C02's exact "
@@ -155,7 +156,19 @@ def freq_oracle(h, x, fft, sel, switched):
 
 
 def gen_selection(rng, fft):
-    kind = str(rng.choice(["none", "array", "list", "slice1", "slice-step", "slice-open"]))
+    kind = str(rng.choice(["none", "array", "list", "slice1", "slice-step", "slice-open",
+                           "slice-negative"]))
+    if kind == "slice-negative":
+        # the last carriers of the grid, written the Python way
+        a = int(rng.integers(1, fft + 1))
+        st = None if rng.random() < 0.5 else int(rng.integers(1, 4))
+        form = int(rng.integers(0, 3))
+        if form == 0:
+            return slice(-a, None, st), kind
+        if form == 1 and a < fft:
+            return slice(None, -a, st), kind
+        b = int(rng.integers(0, a))
+        return slice(-a, fft - b if rng.random() < 0.5 else (-b if b else None), st), kind
     if kind == "none":
         return None, kind
     if kind in ("array", "list"):
@@ -323,6 +336,29 @@ def case_single_link(ctx, rng, idx):
             pl = None if rng.random() < 0.3 else (float(10.0 ** rng.uniform(-6, 0))
                                                   if rng.random() < 0.8 else 0.0)
             ch.set_pathloss(pl)
+        if rng.random() < 0.3:
+            # a transmission whose response nobody asks for (data of another
+            # slot): the next query must still report the NEXT transmission
+            sw = bool(ch.switched_direction)
+            nin = (mimo[0] if sw else mimo[1]) if mimo else None
+            D0 = int(ch.num_taps_with_padding)
+            try:
+                if rng.random() < 0.5 or D0 > 64:
+                    n0 = int(rng.integers(1, 40))
+                    ch.corrupt_data(rand_c(rng, nin, n0) if mimo else rand_c(rng, n0))
+                    tag["unobserved_before"] = "time"
+                else:
+                    fft0 = int(2 ** math.ceil(math.log2(D0 + 1)))
+                    n0 = fft0 * int(rng.integers(1, 4))
+                    ch.corrupt_data_in_freq_domain(rand_c(rng, nin, n0) if mimo
+                                                   else rand_c(rng, n0), fft0)
+                    tag["unobserved_before"] = "freq"
+            except Exception as e:           # noqa: BLE001
+                ctx.ev("output-is-convolution", False, cls="unobserved-transmission-raised:" +
+                       type(e).__name__, detail={**tag, "exc": repr(e)})
+                return
+        else:
+            tag.pop("unobserved_before", None)
         transmit_and_check(ctx, ch, ch.get_last_impulse_response, kind, mimo, rng, tag, pos, pl)
     # linearity on a time-invariant channel
     if gkind == "jakes-static" and not mimo:
